@@ -49,6 +49,7 @@ type jlast struct {
 	P    string `json:"p"`
 	Snap bool   `json:"snap"`
 	Id   string `json:"id"`
+	Mode string `json:"mode"`
 	M    *jmsg  `json:"m"`
 	Emit []jmsg `json:"emit"`
 }
@@ -357,7 +358,7 @@ func runBehaviour(pool *slotPool, b *behaviour, rep *vfutil.Report, rng *rand.Ra
 			} else if sr.NewId != l.Id {
 				drift(i, "new change named %s, spec says %s", sr.NewId, l.Id)
 			}
-		case "DeliverHeadUpdate", "DeliverRequest", "DeliverResponse", "DeliverNoTree", "Drop", "Dup":
+		case "DeliverHeadUpdate", "DeliverRequest", "DeliverResponse", "DeliverNoTree", "Drop", "Dup", "DeliverCancelled":
 			m := w.findInNet(l.M.key())
 			if m == nil {
 				drift(i, "message %s is not in flight in the real network (%v)", l.M.key(), emitKeys(w.net))
@@ -372,6 +373,11 @@ func runBehaviour(pool *slotPool, b *behaviour, rep *vfutil.Report, rng *rand.Ra
 				w.net = append(w.net, m.clone())
 			case "DeliverNoTree":
 				w.removeFromNet(m)
+				lossless = false
+			case "DeliverCancelled":
+				// the real handler runs under a dead context: it must fail without any effect
+				w.removeFromNet(m)
+				sr = w.deliverCancelled(m, l.Mode)
 				lossless = false
 			default:
 				w.removeFromNet(m)
